@@ -2990,6 +2990,12 @@ def rule_duality(ctx: Ctx) -> None:
         from ..cfg import _catches_all
         for c in prims:
             tr = next((a for a in ancestors(c) if isinstance(a, ast.Try) and any(c in list(ast.walk(b)) for b in a.body)), None)
+            if tr is None:
+                for a in ancestors(c):
+                    if a is fi.node:
+                        break
+                    if isinstance(a, (ast.With, ast.AsyncWith)):
+                        _no_unmodelled_manager(a)
             ok = tr is not None and any(_catches_all(h) for h in tr.handlers)
             ctx.check(ok, "drop-on-failure", fi, c, f"{name}: {prim} is wrapped in try/except Exception",
                       f"{name}: the AEAD call {prim} is not contained by a catch-all handler: a tag mismatch raises RuntimeError (not ValueError) "
@@ -3340,6 +3346,24 @@ def _failure_outcomes(ctx: Ctx, fi: FuncInfo, env, depth: int, exits: list | Non
     return out
 
 
+def _no_unmodelled_manager(w: ast.AST) -> None:
+    """A `with` whose manager is defined in the analysed tree and that the rewrite into try/except (_desugar_managers) had to leave
+    alone: its __exit__ / generator may catch, convert or swallow what the block raises, which the control-flow graph does not show -
+    no verdict about the block's failures."""
+    ctx = _CURRENT[0]
+    fi = ctx.repo.function_of(w) if ctx is not None else None
+    if fi is None:
+        return
+    for i in w.items:
+        e = i.context_expr
+        if isinstance(e, ast.Name) and not is_param(fi, e.id):
+            d = local_defs(fi, e.id)
+            e = d[0][1] if len(d) == 1 and d[0][2] is None and d[0][1] is not None else e
+        if _manager_of(ctx, fi, e) is not None:
+            raise AnalysisError(f"undecided: a crypto step of {fi.qualname} runs under `with {norm(i.context_expr)}`, a context manager of the analysed tree "
+                                "whose shape is not understood: where control continues after a failure is not modelled")
+
+
 def _catches_crypto_exception(node: ast.AST, within: ast.AST) -> bool:
     """node sits in the body of a try (inside function `within`) that has a handler for CryptoException (or for everything)."""
     from ..cfg import _catches_all
@@ -3349,6 +3373,8 @@ def _catches_crypto_exception(node: ast.AST, within: ast.AST) -> bool:
                                                             for i in a.items):
             # the control-flow graph does not model a context manager that swallows exceptions: no verdict about what runs afterwards
             raise AnalysisError(f"undecided: a crypto step runs under `with {norm(a.items[0].context_expr)}`: where control continues after a failure is not modelled")
+        if isinstance(a, (ast.With, ast.AsyncWith)):
+            _no_unmodelled_manager(a)
         if isinstance(a, ast.Try) and any(prev is b for b in a.body) and \
                 any(_catches_all(h) or "CryptoException" in [chain(t) for t in (h.type.elts if isinstance(h.type, ast.Tuple) else [h.type])]
                     for h in a.handlers):
@@ -4309,23 +4335,723 @@ def _refs_understood(ctx: Ctx) -> None:
             raise AnalysisError(f"undecided: how {c_fi.qualname if c_fi is not None else 'a shared table'} uses the reference `{norm(node)}`")
 
 
+# ------------------------------------------------------------------ private context managers -> try/except (scoped to this check)
+# The control-flow graph treats `with` as transparent, so a context manager of the analysed tree that catches / converts / swallows the
+# exceptions of its block (a class with __enter__/__exit__, a @contextmanager generator) hides where control continues after a failed
+# crypto step.  Before the rules run, every such `with` whose manager is DEFINED IN THE ANALYSED TREE and simple enough is rewritten into
+# the statements Python executes for it (PEP 343): constructor / __enter__ body, `try: BLOCK except E as exc: <__exit__ body>`; for a
+# generator the block is put in the place of its single `yield`.  A manager object that does not escape (used only as `v.attr`) is
+# replaced by one local per attribute.  Every step is an exact program transformation, and anything outside the understood shapes is
+# left untouched.  The rewrite is undone when the check has run (syntax trees are shared between checks and cached between variants).
+
+_CM_DECOS = {"contextmanager": False, "contextlib.contextmanager": False, "asynccontextmanager": True, "contextlib.asynccontextmanager": True}
+_CM_BASES = {"object", "AbstractContextManager", "contextlib.AbstractContextManager", "ContextManager", "typing.ContextManager", "Generic"}
+
+
+class _Bail(Exception):
+    """this `with` is not of an understood shape: leave it as it is"""
+
+
+class _Journal:
+    def __init__(self) -> None:
+        self.log: list = []
+
+    def set_list(self, lst: list, new: list) -> None:
+        self.log.append(("list", lst, list(lst)))
+        lst[:] = new
+
+    def set_field(self, node: ast.AST, name: str, value) -> None:
+        self.log.append(("field", node, name, getattr(node, name)))
+        setattr(node, name, value)
+
+    def set_parent(self, node: ast.AST, p) -> None:
+        self.log.append(("parent", node, getattr(node, "_parent", None)))
+        node._parent = p  # type: ignore[attr-defined]
+
+    def undo(self) -> None:
+        for e in reversed(self.log):
+            if e[0] == "list":
+                e[1][:] = e[2]
+            elif e[0] == "field":
+                setattr(e[1], e[2], e[3])
+            else:
+                e[1]._parent = e[2]
+        self.log.clear()
+
+
+def _block_holding(st: ast.AST):
+    p = getattr(st, "_parent", None)
+    if p is None:
+        return None
+    for f in ("body", "orelse", "finalbody"):
+        lst = getattr(p, f, None)
+        if isinstance(lst, list) and any(x is st for x in lst):
+            return lst
+    return None
+
+
+def _adopt(j: _Journal, new: ast.AST, p: ast.AST, reused=()) -> None:
+    """parent links of a statement built from new nodes and the (re-used, not copied) statements `reused`"""
+    from ..model import set_parents
+    for r in reused:
+        j.log.append(("parent", r, getattr(r, "_parent", None)))
+    set_parents(new)
+    new._parent = p  # type: ignore[attr-defined]
+
+
+def _replace_child(j: _Journal, old: ast.AST, new: ast.AST) -> None:
+    p = getattr(old, "_parent", None)
+    if p is None:
+        raise _Bail
+    for f in p._fields:
+        v = getattr(p, f, None)
+        if v is old:
+            j.set_field(p, f, new)
+            break
+        if isinstance(v, list) and any(x is old for x in v):
+            j.set_list(v, [new if x is old else x for x in v])
+            break
+    else:
+        raise _Bail
+    new._parent = p  # type: ignore[attr-defined]
+    ast.copy_location(new, old)
+
+
+def _names_of(fn: ast.AST) -> set:
+    out = {n.id for n in ast.walk(fn) if isinstance(n, ast.Name)}
+    out |= {a.arg for n in ast.walk(fn) if isinstance(n, ast.arguments) for a in [*n.posonlyargs, *n.args, *n.kwonlyargs, n.vararg, n.kwarg] if a is not None}
+    out |= {n.name for n in ast.walk(fn) if isinstance(n, ast.ExceptHandler) and n.name}
+    return out
+
+
+def _no_doc(stmts: list) -> list:
+    return [s for s in stmts if not (isinstance(s, ast.Expr) and isinstance(s.value, ast.Constant) and isinstance(s.value.value, str))
+            and not isinstance(s, ast.Pass)]
+
+
+def _escaping_jump(stmts: list) -> bool:
+    """a return, or a break / continue that leaves the statements"""
+    def visit(n, in_loop: bool) -> bool:
+        if isinstance(n, ast.Return):
+            return True
+        if isinstance(n, (ast.Break, ast.Continue)):
+            return not in_loop
+        if isinstance(n, (ast.FunctionDef, ast.AsyncFunctionDef, ast.ClassDef, ast.Lambda)):
+            return False
+        loop = in_loop or isinstance(n, (ast.For, ast.AsyncFor, ast.While))
+        return any(visit(c, loop) for c in ast.iter_child_nodes(n))
+    return any(visit(s, False) for s in stmts)
+
+
+def _bind_call(call: ast.Call, params: list, defaults: dict, stores_in_block: set, prefix: str, taken: set, immediate: bool = False, nonlocal_user: bool = True):
+    """({param: expression to put in its place}, [temp assignments]) for the call's arguments; exact evaluation order and time.
+    immediate: the parameters are only read by statements that run at once (a constructor body of plain stores), so a pure
+    argument can stand in their place; otherwise only constants and names the block does not re-bind can."""
+    if any(isinstance(a, ast.Starred) for a in call.args) or any(k.arg is None for k in call.keywords) or len(call.args) > len(params):
+        raise _Bail
+    given: dict = dict(zip(params, call.args))
+    for k in call.keywords:
+        if k.arg in given or k.arg not in params:
+            raise _Bail
+        given[k.arg] = k.value
+    order = [*given.items()]
+    for p in params:
+        if p not in given:
+            if p not in defaults or not isinstance(defaults[p], ast.Constant):
+                raise _Bail
+            order.append((p, defaults[p]))
+    def direct(e: ast.AST) -> bool:
+        if immediate:
+            return _is_pure_alias(e) and not any(isinstance(n, ast.Call) for n in ast.walk(e))
+        return isinstance(e, ast.Constant) or (isinstance(e, ast.Name) and e.id not in stores_in_block)
+    # a local name keeps its value until a statement of the user re-binds it (no call can), a constant always; a pure attribute
+    # chain is read in place only when nothing with an effect is evaluated among the arguments
+    all_direct = all(direct(e) for _, e in order)
+    mapping, temps = {}, []
+    for p, e in order:
+        if isinstance(e, ast.Constant) or (isinstance(e, ast.Name) and e.id not in stores_in_block and not nonlocal_user) or (all_direct and direct(e)):
+            mapping[p] = clone(e)
+            continue
+        t = f"{prefix}__arg_{p}"
+        if t in taken:
+            raise _Bail
+        taken.add(t)
+        a = ast.Assign(targets=[ast.Name(id=t, ctx=ast.Store())], value=clone(e), lineno=call.lineno, col_offset=call.col_offset)
+        temps.append(ast.fix_missing_locations(a))
+        mapping[p] = ast.Name(id=t, ctx=ast.Load())
+    return mapping, temps
+
+
+class _Xlate(ast.NodeTransformer):
+    """copy of a manager's statements as they run inside the user: parameters -> arguments, self.X -> local, own locals kept apart"""
+
+    def __init__(self, mapping: dict, selfname: str | None, attr_local, rename: dict) -> None:
+        self.mapping, self.selfname, self.attr_local, self.rename = mapping, selfname, attr_local, rename
+
+    def visit_Attribute(self, n: ast.Attribute):  # noqa: N802
+        if self.selfname is not None and isinstance(n.value, ast.Name) and n.value.id == self.selfname and self.selfname not in self.mapping:
+            return ast.copy_location(ast.Name(id=self.attr_local(n.attr), ctx=n.ctx), n)
+        return self.generic_visit(n)
+
+    def visit_Name(self, n: ast.Name):  # noqa: N802
+        if n.id in self.mapping:
+            if not isinstance(n.ctx, ast.Load):
+                raise _Bail
+            return ast.copy_location(clone(self.mapping[n.id]), n)
+        if self.selfname is not None and n.id == self.selfname:
+            raise _Bail                                  # the manager object itself is used (escapes)
+        if n.id in self.rename:
+            return ast.copy_location(ast.Name(id=self.rename[n.id], ctx=n.ctx), n)
+        return n
+
+    def visit_ExceptHandler(self, n: ast.ExceptHandler):  # noqa: N802
+        self.generic_visit(n)
+        if n.name in self.mapping:
+            raise _Bail
+        if n.name in self.rename:
+            n.name = self.rename[n.name]
+        return n
+
+    def visit_FunctionDef(self, n):  # noqa: N802
+        raise _Bail
+
+    visit_AsyncFunctionDef = visit_Lambda = visit_ClassDef = visit_Global = visit_Nonlocal = visit_FunctionDef  # noqa: N815
+
+
+def _own_locals(fn: ast.AST, params: list) -> set:
+    out = {n.id for n in ast.walk(fn) if isinstance(n, ast.Name) and isinstance(n.ctx, (ast.Store, ast.Del))}
+    out |= {n.name for n in ast.walk(fn) if isinstance(n, ast.ExceptHandler) and n.name}
+    return out - set(params)
+
+
+def _xlate(stmts: list, mapping: dict, selfname, attr_local, rename: dict) -> list:
+    x = _Xlate(mapping, selfname, attr_local, rename)
+    return [x.visit(clone(s)) for s in _no_doc(stmts)]
+
+
+def _plain_params(fn: ast.AST):
+    a = fn.args
+    if a.vararg or a.kwarg or a.kwonlyargs:
+        raise _Bail
+    ps = [x.arg for x in a.posonlyargs + a.args]
+    defaults = dict(zip(ps[len(ps) - len(a.defaults):], a.defaults))
+    return ps, defaults
+
+
+# ---- generator managers
+def _yield_path(fn: ast.AST):
+    """[(block list, index)] from the function body down to the single `yield` statement; None if the shape is not understood"""
+    ys = [n for n in ast.walk(fn) if isinstance(n, (ast.Yield, ast.YieldFrom))]
+    if len(ys) != 1 or isinstance(ys[0], ast.YieldFrom) or any(isinstance(n, ast.Return) for n in ast.walk(fn)):
+        return None
+    def find(block: list):
+        for i, s in enumerate(block):
+            if isinstance(s, ast.Expr) and s.value is ys[0]:
+                return [(block, i)]
+            if isinstance(s, ast.Try) and not isinstance(s, getattr(ast, "TryStar", ())):
+                sub = find(s.body)
+                if sub is not None:
+                    return [(block, i), *sub]
+            if isinstance(s, ast.With):
+                sub = find(s.body)
+                if sub is not None:
+                    return [(block, i), *sub]
+        return None
+    return find(fn.body)
+
+
+def _inline_generator(cmf: FuncInfo, call: ast.Call, target, block: list, user: ast.AST, selfmap: dict, prefix: str, taken: set):
+    fn = cmf.node
+    path = _yield_path(fn)
+    if path is None:
+        raise _Bail
+    # statements that run after the block completed normally must also run when the block leaves by return / break / continue
+    if _escaping_jump(block):
+        for blk, i in path:
+            owner = blk[i]
+            if _no_doc(blk[i + 1:]) or (isinstance(owner, ast.Try) and owner.orelse):
+                raise _Bail
+    params, defaults = _plain_params(fn)
+    if selfmap:
+        params = params[1:]
+    stores = {n.id for s in block for n in ast.walk(s) if isinstance(n, ast.Name) and isinstance(n.ctx, (ast.Store, ast.Del))}
+    mapping, temps = _bind_call(call, params, defaults, stores, prefix, taken, nonlocal_user=any(isinstance(n, ast.Nonlocal) for n in ast.walk(user)))
+    mapping.update(selfmap)
+    rename = {}
+    for nm in sorted(_own_locals(fn, [*params, *selfmap])):
+        if nm in taken:
+            rename[nm] = f"{prefix}__{nm}"
+            if rename[nm] in taken:
+                raise _Bail
+        taken.add(rename.get(nm, nm))
+    body = _xlate(fn.body, mapping, None, None, rename)
+    # locate the copied yield statement and put the block there
+    ys = [n for s in body for n in ast.walk(s) if isinstance(n, ast.Expr) and isinstance(n.value, ast.Yield)]
+    if len(ys) != 1:
+        raise _Bail
+    y = ys[0]
+    put = []
+    if target is not None:
+        if y.value.value is None:
+            raise _Bail
+        put.append(ast.copy_location(ast.Assign(targets=[target], value=y.value.value), call))
+    elif y.value.value is not None and not isinstance(y.value.value, (ast.Constant, ast.Name)):
+        put.append(ast.copy_location(ast.Expr(value=y.value.value), call))
+    put.extend(block)
+    def place(stmts: list) -> bool:
+        for i, s in enumerate(stmts):
+            if s is y:
+                stmts[i:i + 1] = put
+                return True
+            if isinstance(s, (ast.Try, ast.With)) and place(s.body):
+                return True
+        return False
+    if not place(body):
+        raise _Bail
+    return [*temps, *body]
+
+
+# ---- class managers
+def _fold_bool(e: ast.AST, known) -> ast.AST:
+    """e with the sub-expressions whose value `known(expr) -> True / False / None` tells replaced, and and/or/not simplified"""
+    k = known(e)
+    if k is not None:
+        return ast.copy_location(ast.Constant(value=k), e)
+    if isinstance(e, ast.UnaryOp) and isinstance(e.op, ast.Not):
+        x = _fold_bool(e.operand, known)
+        if isinstance(x, ast.Constant):
+            return ast.copy_location(ast.Constant(value=not x.value), e)
+        return ast.copy_location(ast.UnaryOp(op=ast.Not(), operand=x), e)
+    if isinstance(e, ast.BoolOp):
+        is_and = isinstance(e.op, ast.And)
+        vals = []
+        for v in e.values:
+            x = _fold_bool(v, known)
+            if isinstance(x, ast.Constant) and isinstance(x.value, bool):
+                if x.value is (not is_and):          # False in `and` / True in `or`: decided here (nothing impure was dropped before:
+                    if not vals:                      # only when it is the first operand still standing)
+                        return x
+                    vals.append(x)
+                    break
+                continue                              # neutral element
+            vals.append(x)
+        if not vals:
+            return ast.copy_location(ast.Constant(value=is_and), e)
+        if len(vals) == 1:
+            return vals[0]
+        return ast.copy_location(ast.BoolOp(op=e.op, values=vals), e)
+    return e
+
+
+def _fold_stmts(stmts: list, known) -> list:
+    out = []
+    for s in stmts:
+        if isinstance(s, ast.If):
+            t = _fold_bool(s.test, known)
+            if isinstance(t, ast.Constant) and isinstance(t.value, bool):
+                out.extend(_fold_stmts(s.body if t.value else s.orelse, known))
+                if any(isinstance(x, (ast.Return, ast.Raise)) for x in out[-1:]):
+                    break
+                continue
+            s = ast.copy_location(ast.If(test=t, body=_fold_stmts(s.body, known), orelse=_fold_stmts(s.orelse, known)), s)
+            if not s.body:
+                s.body = [ast.copy_location(ast.Pass(), s)]
+        elif isinstance(s, ast.Return) and s.value is not None:
+            s = ast.copy_location(ast.Return(value=_fold_bool(s.value, known)), s)
+        out.append(s)
+        if isinstance(s, (ast.Return, ast.Raise)):
+            break
+    return out
+
+
+def _lower_returns(stmts: list, on_return) -> list:
+    """the statements of __exit__ with every way of leaving them (`return v`, falling off the end) replaced by on_return(v)"""
+    out = []
+    for i, s in enumerate(stmts):
+        if isinstance(s, ast.Return):
+            return out + on_return(s.value, s)
+        has_ret = any(isinstance(n, ast.Return) for n in ast.walk(s))
+        if has_ret:
+            if not isinstance(s, ast.If):
+                raise _Bail
+            rest = stmts[i + 1:]
+            new = ast.copy_location(ast.If(test=s.test, body=_lower_returns([*s.body, *clone(rest)], on_return) or [ast.copy_location(ast.Pass(), s)],
+                                           orelse=_lower_returns([*s.orelse, *clone(rest)], on_return)), s)
+            return [*out, new]
+        out.append(s)
+    return out + on_return(None, stmts[-1] if stmts else None)
+
+
+def _class_manager_parts(ctx: Ctx, ci):
+    """(init params, defaults, init statements, enter statements, exit FunctionDef, attrs, class-level constants) of a simple manager class"""
+    node = ci.node
+    if ci.bases or ci.subclasses or node.keywords or any(b not in _CM_BASES for b in ci.base_names):
+        raise _Bail
+    decos = [chain(d.func) if isinstance(d, ast.Call) else chain(d) for d in node.decorator_list]
+    if any(d not in ("dataclass", "dataclasses.dataclass") for d in decos):
+        raise _Bail
+    ex, en, init = ci.methods.get("__exit__"), ci.methods.get("__enter__"), ci.methods.get("__init__")
+    if ex is None or "__post_init__" in ci.methods or "__getattr__" in ci.methods or "__setattr__" in ci.methods or "__del__" in ci.methods:
+        raise _Bail
+    for m in (ex, en, init):
+        if m is not None and (m.node.decorator_list or isinstance(m.node, ast.AsyncFunctionDef)):
+            raise _Bail
+    class_consts, fields = {}, []
+    for s in node.body:
+        if isinstance(s, ast.Assign) and len(s.targets) == 1 and isinstance(s.targets[0], ast.Name):
+            if s.targets[0].id == "__slots__":
+                continue
+            if not isinstance(s.value, ast.Constant):
+                raise _Bail
+            class_consts[s.targets[0].id] = s.value
+        elif isinstance(s, ast.AnnAssign) and isinstance(s.target, ast.Name):
+            if "ClassVar" in norm(s.annotation):
+                raise _Bail
+            if s.value is not None and not isinstance(s.value, ast.Constant):
+                raise _Bail
+            fields.append((s.target.id, s.value))
+            if not decos and s.value is not None:
+                class_consts[s.target.id] = s.value
+        elif isinstance(s, (ast.FunctionDef, ast.Pass)) or (isinstance(s, ast.Expr) and isinstance(s.value, ast.Constant)):
+            continue
+        else:
+            raise _Bail
+    if init is not None:
+        params, defaults = _plain_params(init.node)
+        if not params:
+            raise _Bail
+        init_self, params, init_body = params[0], params[1:], init.node.body
+    elif decos:
+        params = [f for f, _ in fields]
+        defaults = {f: v for f, v in fields if v is not None}
+        init_self = "self"
+        init_body = [ast.Assign(targets=[ast.Attribute(value=ast.Name(id="self", ctx=ast.Load()), attr=f, ctx=ast.Store())],
+                                value=ast.Name(id=f, ctx=ast.Load()), lineno=node.lineno, col_offset=0) for f in params]
+        class_consts = {k: v for k, v in class_consts.items() if k not in params}
+    else:
+        params, defaults, init_self, init_body = [], {}, "self", []
+    if en is not None:
+        eps, _ = _plain_params(en.node)
+        if len(eps) != 1:
+            raise _Bail
+        en_body = _no_doc(en.node.body)
+        # __enter__ hands out the manager itself: `return self` as its last statement and nowhere else
+        rets = [n for n in ast.walk(en.node) if isinstance(n, ast.Return)]
+        if len(rets) != 1 or not en_body or en_body[-1] is not rets[0] or not (isinstance(rets[0].value, ast.Name) and rets[0].value.id == eps[0]):
+            raise _Bail
+        enter = (eps[0], en_body[:-1])
+    elif ci.base_names and any("ContextManager" in b for b in ci.base_names):
+        enter = ("self", [])
+    else:
+        raise _Bail
+    xps, xdef = _plain_params(ex.node)
+    if len(xps) != 4 or xdef:
+        raise _Bail
+    attrs = set(class_consts) | {f for f, _ in fields}
+    for m, sname in ((init, init_self), (en, enter[0]), (ex, xps[0])):
+        if m is None:
+            continue
+        for n in ast.walk(m.node):
+            if isinstance(n, ast.Attribute) and isinstance(n.value, ast.Name) and n.value.id == sname and isinstance(n.ctx, ast.Store):
+                attrs.add(n.attr)
+    if init is None and decos:
+        attrs |= set(params)
+    return params, defaults, (init_self, init_body), enter, ex.node, attrs, class_consts
+
+
+def _inline_class(ctx: Ctx, fi: FuncInfo, ci, call, target, block: list, user: ast.AST, j: _Journal, taken: set, with_stmt: ast.AST, created: dict,
+                  ctor=None, objname: str | None = None):
+    """call: the constructor call (None: the object was built by a statement this pass has already rewritten); ctor: the statement
+    `objname = C(...)` when the manager is built before the `with` that uses it (`with objname:`)."""
+    params, defaults, (init_self, init_body), (en_self, en_body), ex, attrs, class_consts = _class_manager_parts(ctx, ci)
+    if target is not None and not isinstance(target, ast.Name):
+        raise _Bail
+    obj = objname if objname is not None else target.id if target is not None else f"_cm{with_stmt.lineno}"
+    names = {obj} | ({target.id} if target is not None else set())       # (`with g as h` hands out g itself: both names are the object)
+    # the manager object does not escape: every mention of the name is `obj.attr` with a known attribute
+    uses = []
+    if target is not None or objname is not None:
+        for n in ast.walk(user):
+            if isinstance(n, ast.Name) and n.id in names and n is not target and not (ctor is not None and n is ctor.targets[0]):
+                p = getattr(n, "_parent", None)
+                if isinstance(p, ast.withitem) and p.context_expr is n and n.id == objname:
+                    continue                             # `with obj:` - this block or another one under the same object
+                if isinstance(n.ctx, ast.Store) and isinstance(p, ast.withitem) and p.optional_vars is n:
+                    other = _manager_of(ctx, fi, p.context_expr)
+                    if other is not None and other[0] == "cls" and other[1] is ci:
+                        continue                         # another block under a manager of the same class bound to the same name
+                    if isinstance(p.context_expr, ast.Name) and p.context_expr.id == objname:
+                        continue
+                if not (isinstance(p, ast.Attribute) and p.value is n and p.attr in attrs) or not isinstance(n.ctx, ast.Load):
+                    raise _Bail
+                f = next((a for a in ancestors(n) if isinstance(a, (ast.FunctionDef, ast.AsyncFunctionDef, ast.Lambda, ast.ClassDef))), None)
+                if f is not user:
+                    raise _Bail
+                uses.append(p)
+        if any(a.arg in names for n in ast.walk(user) if isinstance(n, ast.arguments) for a in [*n.posonlyargs, *n.args, *n.kwonlyargs, n.vararg, n.kwarg] if a is not None):
+            raise _Bail
+    local = {a: f"{obj}__{a}" for a in attrs}
+    if any(v in taken and v not in created["locals"] for v in local.values()):
+        raise _Bail
+    taken |= set(local.values())
+
+    def attr_local(a: str) -> str:
+        if a not in local:
+            raise _Bail                                  # reads an attribute nobody stores (a method, a property): not a plain record
+        return local[a]
+
+    stores = {n.id for s in block for n in ast.walk(s) if isinstance(n, ast.Name) and isinstance(n.ctx, (ast.Store, ast.Del))}
+    pre: list = []
+    if call is not None:
+        mapping, temps = _bind_call(call, params, defaults, set(), obj, taken, immediate=True)      # __init__ runs at once: nothing can be re-bound in between
+        pre = [ast.fix_missing_locations(ast.copy_location(ast.Assign(targets=[ast.Name(id=local[k], ctx=ast.Store())], value=clone(v)), call))
+               for k, v in class_consts.items()]
+    def renames(fn_body, ps) -> dict:
+        own = set()
+        for s in fn_body:
+            own |= _own_locals(s, ps)
+        r = {}
+        for nm in sorted(own):
+            if nm in taken:
+                r[nm] = f"{obj}__{nm}_"
+                if r[nm] in taken:
+                    raise _Bail
+            taken.add(r.get(nm, nm))
+        return r
+    if not all(isinstance(s, (ast.Assign, ast.AnnAssign)) for s in _no_doc(init_body)) or _escaping_jump(en_body):
+        raise _Bail                                      # (the constructor is a list of plain stores: its parameters are read at once)
+    if call is not None:
+        pre += temps + _xlate(init_body, mapping, init_self, attr_local, renames(init_body, [init_self, *params]))
+    init_stmts, pre = (pre, []) if ctor is not None else ([], pre)
+    pre += _xlate(en_body, {}, en_self, attr_local, renames(en_body, [en_self]))
+    # __exit__(self, exc_type, exc, tb)
+    xs, xt, xe, xtb = [a.arg for a in ex.args.posonlyargs + ex.args.args]
+    body = _no_doc(ex.body)
+    if any(isinstance(n, ast.Name) and n.id in (xt, xe, xtb) and not isinstance(n.ctx, ast.Load) for s in body for n in ast.walk(s)):
+        raise _Bail
+    exc_name = xe if xe not in taken else f"{obj}__{xe}"
+    if exc_name in taken:
+        raise _Bail
+    taken.add(exc_name)
+    none = ast.Constant(value=None)
+    # (a) the block completed (or left by return / break / continue): __exit__(None, None, None), result ignored
+    def is_none_test(e, names, when_none: bool):
+        if isinstance(e, ast.Compare) and len(e.ops) == 1 and isinstance(e.ops[0], (ast.Is, ast.IsNot)) and isinstance(e.left, ast.Name) \
+                and e.left.id in names and isinstance(e.comparators[0], ast.Constant) and e.comparators[0].value is None:
+            return when_none if isinstance(e.ops[0], ast.Is) else not when_none
+        if isinstance(e, ast.Name) and (e.id == xt or (when_none and e.id in names)):
+            return not when_none                          # truthiness of None / of an exception class
+        return None
+    normal = _fold_stmts(clone(body), lambda e: is_none_test(e, (xt, xe, xtb), True))
+    normal = _lower_returns(normal, lambda v, at: [] if v is None or _is_pure_alias(v) else [ast.copy_location(ast.Expr(value=v), at)])
+    normal = _xlate(normal, {xt: none, xe: none, xtb: none}, xs, attr_local, renames(normal, [xs, xt, xe, xtb]))
+    if normal and _escaping_jump(block):
+        raise _Bail
+    # (b) the block raised: __exit__(type(exc), exc, exc.__traceback__); a true result swallows the exception, a false one lets it pass
+    def on_return_exc(v, at):
+        if v is None or (isinstance(v, ast.Constant) and not v.value):
+            return [ast.copy_location(ast.Raise(exc=None, cause=None), at)] if at is not None else [ast.Raise(exc=None, cause=None)]
+        if isinstance(v, ast.Constant):
+            return []
+        return [ast.copy_location(ast.If(test=v, body=[ast.copy_location(ast.Pass(), at)], orelse=[ast.copy_location(ast.Raise(exc=None, cause=None), at)]), at)]
+    raised = _fold_stmts(clone(body), lambda e: is_none_test(e, (xt, xe, xtb), False))
+    raised = _lower_returns(raised, on_return_exc)
+    type_of = ast.Call(func=ast.Name(id="type", ctx=ast.Load()), args=[ast.Name(id=exc_name, ctx=ast.Load())], keywords=[])
+    tb_of = ast.Attribute(value=ast.Name(id=exc_name, ctx=ast.Load()), attr="__traceback__", ctx=ast.Load())
+    raised = _xlate(raised, {xt: type_of, xe: ast.Name(id=exc_name, ctx=ast.Load()), xtb: tb_of}, xs, attr_local, renames(raised, [xs, xt, xe, xtb]))
+    htype: ast.AST = ast.Name(id="BaseException", ctx=ast.Load())
+    # `except BaseException as e: if not isinstance(e, E): raise; REST`  ==  `except E as e: REST`
+    if len(raised) == 1 and isinstance(raised[0], ast.If):
+        t, pos, neg = raised[0].test, raised[0].body, raised[0].orelse
+        if isinstance(t, ast.UnaryOp) and isinstance(t.op, ast.Not):
+            t, pos, neg = t.operand, neg, pos
+        cls = None
+        if isinstance(t, ast.Call) and not t.keywords and len(t.args) == 2 and isinstance(t.func, ast.Name):
+            if t.func.id == "issubclass" and norm(t.args[0]) == norm(type_of):
+                cls = t.args[1]
+            elif t.func.id == "isinstance" and isinstance(t.args[0], ast.Name) and t.args[0].id == exc_name:
+                cls = t.args[1]
+        if cls is not None and chain(cls.elts[0] if isinstance(cls, ast.Tuple) and cls.elts else cls) is not None and \
+                len(neg) == 1 and isinstance(neg[0], ast.Raise) and neg[0].exc is None:
+            htype, raised = cls, [s for s in pos if not isinstance(s, ast.Pass)]
+    raised = raised or [ast.Pass()]
+    handler = ast.ExceptHandler(type=htype, name=exc_name, body=raised)
+    tr = ast.Try(body=list(block), handlers=[handler], orelse=normal, finalbody=[])
+    # the object's attributes read / written by the user are the locals
+    for p in uses:
+        _replace_child(j, p, ast.Name(id=local[p.attr], ctx=p.ctx))
+    if ctor is not None:                                 # the constructor's stores run where the object was built
+        cblk = _block_holding(ctor)
+        if cblk is None:
+            raise _Bail
+        init_stmts = init_stmts or [ast.Pass()]
+        for s in init_stmts:
+            ast.fix_missing_locations(ast.copy_location(s, ctor))
+            _adopt(j, s, ctor._parent)
+        j.set_list(cblk, [y for x in cblk for y in (init_stmts if x is ctor else [x])])
+    created["locals"] |= set(local.values())
+    if objname is not None:
+        created["objs"][objname] = ci
+    return [*pre, tr]
+
+
+def _manager_of(ctx: Ctx, fi: FuncInfo, e: ast.AST):
+    """('gen', FuncInfo, {self param: self}) / ('cls', ClassInfo) for a with-item expression that builds a manager of the analysed tree"""
+    if not isinstance(e, ast.Call):
+        return None
+    f = e.func
+    r = None
+    selfmap: dict = {}
+    if isinstance(f, ast.Name):
+        ts = ctx.repo.resolve_call(fi, e)                # (a generator defined inside the user, a module-level function)
+        r = ts[0] if len(ts) == 1 and ts[0].name == f.id else ctx.repo.resolve_name(fi.module, f.id)
+    elif isinstance(f, ast.Attribute) and isinstance(f.value, ast.Name) and f.value.id == "self" and fi.cls is not None and is_param(fi, "self"):
+        ts = ctx.repo.dispatch(fi.cls, f.attr)
+        if len(ts) == 1 and ts[0].cls is not None:
+            r = ts[0]
+            ps = r.params()
+            if not ps or any(chain(d) in ("staticmethod", "classmethod") for d in r.decorators):
+                return None
+            selfmap = {ps[0]: ast.Name(id="self", ctx=ast.Load())}
+    elif isinstance(f, ast.Attribute):
+        c = chain(f)
+        if c is not None and isinstance(f.value, ast.Name) and f.value.id in fi.module.imports:
+            mod, attr = fi.module.imports[f.value.id]
+            m = ctx.repo.modules.get(mod if attr is None else f"{mod}.{attr}")
+            if m is not None:
+                r = m.functions.get(f.attr) or m.classes.get(f.attr)
+    if isinstance(r, FuncInfo):
+        ds = [chain(d) for d in r.decorators]
+        if len(ds) == 1 and ds[0] in _CM_DECOS and (r.cls is None) == (not selfmap):
+            return ("gen", r, selfmap, _CM_DECOS[ds[0]])
+        return None
+    if r is not None and hasattr(r, "methods") and "__exit__" in r.methods:
+        return ("cls", r)
+    return None
+
+
+def _desugar_with(ctx: Ctx, fi: FuncInfo, w: ast.AST, j: _Journal, created: dict) -> bool:
+    blk = _block_holding(w)
+    if blk is None or not w.items:
+        return False
+    item = w.items[-1]
+    ce = item.context_expr
+    call, ctor, objname = ce, None, None
+    if isinstance(ce, ast.Name) and not is_param(fi, ce.id):
+        # the manager was built by an earlier statement `g = C(...)` (the only binding of g)
+        kind = None
+        if ce.id in created["objs"]:
+            kind, call, objname = ("cls", created["objs"][ce.id]), None, ce.id
+        else:
+            d = local_defs(fi, ce.id)
+            if len(d) == 1 and d[0][2] is None and isinstance(d[0][1], ast.Call) and isinstance(d[0][0], ast.Assign) and len(d[0][0].targets) == 1 \
+                    and isinstance(d[0][0].targets[0], ast.Name):
+                kind = _manager_of(ctx, fi, d[0][1])
+                if kind is not None and kind[0] == "cls":
+                    ctor, call, objname = d[0][0], d[0][1], ce.id
+                else:
+                    kind = None
+    else:
+        kind = _manager_of(ctx, fi, ce)
+    if kind is None:
+        return False
+    if (kind[0] == "gen" and kind[3]) != isinstance(w, ast.AsyncWith) or (kind[0] == "cls" and isinstance(w, ast.AsyncWith)):
+        return False
+    taken = _names_of(fi.node)
+    mark = len(j.log)
+    try:
+        block = list(w.body)
+        if kind[0] == "gen":
+            target = clone(item.optional_vars) if item.optional_vars is not None else None
+            new = _inline_generator(kind[1], item.context_expr, target, block, fi.node, kind[2], f"_{kind[1].name.strip('_')}", taken)
+        else:
+            new = _inline_class(ctx, fi, kind[1], call, item.optional_vars, block, fi.node, j, taken, w, created, ctor, objname)
+    except _Bail:
+        for e in reversed(j.log[mark:]):
+            if e[0] == "list":
+                e[1][:] = e[2]
+            elif e[0] == "field":
+                setattr(e[1], e[2], e[3])
+            else:
+                e[1]._parent = e[2]
+        del j.log[mark:]
+        return False
+    for s in new:
+        ast.fix_missing_locations(ast.copy_location(s, w) if not hasattr(s, "lineno") else s)
+    if len(w.items) > 1:
+        outer = ast.copy_location(type(w)(items=list(w.items[:-1]), body=new), w)
+        new = [outer]
+    holder = w._parent
+    for s in new:
+        _adopt(j, s, holder, reused=[*block, *w.items[:-1]])
+    j.set_list(blk, [y for x in blk for y in (new if x is w else [x])])
+    return True
+
+
+def _split_conditional_returns(ctx: Ctx, fi: FuncInfo, j: _Journal) -> None:
+    """`return A if c else B` -> `if c: return A` / `else: return B` (same evaluations in the same order): the two results become
+    two exits of the control-flow graph, so a flag that decides between them is followed like any other test."""
+    for _ in range(20):
+        r = next((n for n in walk_no_nested(fi.node) if isinstance(n, ast.Return) and isinstance(n.value, ast.IfExp)), None)
+        blk = _block_holding(r) if r is not None else None
+        if blk is None:
+            return
+        v = r.value
+        new = ast.copy_location(ast.If(test=v.test, body=[ast.copy_location(ast.Return(value=v.body), r)],
+                                       orelse=[ast.copy_location(ast.Return(value=v.orelse), r)]), r)
+        j.log.append(("parent", v.test, v.test._parent))
+        j.log.append(("parent", v.body, v.body._parent))
+        j.log.append(("parent", v.orelse, v.orelse._parent))
+        _adopt(j, new, r._parent)
+        j.set_list(blk, [new if x is r else x for x in blk])
+
+
+def _desugar_managers(ctx: Ctx) -> _Journal:
+    j = _Journal()
+    try:
+        for m in ctx.repo.modules.values():
+            if "with " not in m.src:
+                continue
+            for fi in list(m.all_functions):
+                changed = False
+                created: dict = {"locals": set(), "objs": {}}
+                for _ in range(12):
+                    ws = [n for n in walk_no_nested(fi.node) if isinstance(n, (ast.With, ast.AsyncWith)) and n is not fi.node]
+                    if not any(_desugar_with(ctx, fi, w, j, created) for w in ws):
+                        break
+                    changed = True
+                if changed:
+                    _split_conditional_returns(ctx, fi, j)
+    except BaseException:
+        j.undo()
+        raise
+    return j
+
+
 def run(ctx: Ctx) -> None:
-    rule_duality(ctx)
-    rule_plaintext(ctx)
-    rule_crypto_before_send(ctx)
-    rule_drop_on_failure(ctx)
-    rule_e2e_delivery(ctx)
-    rule_key_selection(ctx)
-    rule_emitters(ctx)
-    rule_payload_conservation(ctx)
-    rule_own_circuit_sender(ctx)
-    rule_fresh_ephemerals(ctx)
-    rule_whole_secret(ctx)
-    rule_single_entry(ctx)
-    rule_per_circuit_state(ctx)
-    _refs_understood(ctx)
-    ctx.assume("ChaCha20-Poly1305 in ipv8_rust_tunnels.SessionKeys.encrypt_str/decrypt_str: decrypt raises ValueError on any altered byte; ciphertexts under different keys differ (trusted)")
-    ctx.assume("a Rust CryptoEndpoint (ipv8_rust_tunnels.Endpoint), when used instead of PythonCryptoEndpoint, is outside the analysed source")
+    journal = _desugar_managers(ctx)
+    rewritten = bool(journal.log)
+    try:
+        rule_duality(ctx)
+        rule_plaintext(ctx)
+        rule_crypto_before_send(ctx)
+        rule_drop_on_failure(ctx)
+        rule_e2e_delivery(ctx)
+        rule_key_selection(ctx)
+        rule_emitters(ctx)
+        rule_payload_conservation(ctx)
+        rule_own_circuit_sender(ctx)
+        rule_fresh_ephemerals(ctx)
+        rule_whole_secret(ctx)
+        rule_single_entry(ctx)
+        rule_per_circuit_state(ctx)
+        _refs_understood(ctx)
+        ctx.assume("ChaCha20-Poly1305 in ipv8_rust_tunnels.SessionKeys.encrypt_str/decrypt_str: decrypt raises ValueError on any altered byte; ciphertexts under different keys differ (trusted)")
+        ctx.assume("a Rust CryptoEndpoint (ipv8_rust_tunnels.Endpoint), when used instead of PythonCryptoEndpoint, is outside the analysed source")
+    finally:
+        journal.undo()
+        if rewritten:
+            ctx._cfgs.clear()                 # graphs of the rewritten functions
 
 
 WITNESSES = [
